@@ -42,6 +42,41 @@ func main() {
 		}
 		nb := 2 + r.Intn(5)
 		blocks := msdrive.GenBlocks(r, ps, nb, space, maxw)
+		// substores that hold NO key at the tip: one that is never written and/or one that is drained
+		// (every key it ever received is deleted again in a block before the tip)
+		if len(ps) >= 2 && r.Chance(2, 3) {
+			never := ps[r.Intn(len(ps))]
+			for i := range blocks {
+				var keep []msdrive.Write
+				for _, w := range blocks[i] {
+					if w.Store != never {
+						keep = append(keep, w)
+					}
+				}
+				blocks[i] = keep
+			}
+		}
+		if r.Chance(2, 3) {
+			drained := ps[r.Intn(len(ps))]
+			at := r.Intn(nb) // block in which the store is emptied; later blocks do not touch it
+			seen := map[string]bool{}
+			for i := 0; i < nb; i++ {
+				var keep []msdrive.Write
+				for _, w := range blocks[i] {
+					if w.Store == drained {
+						if i > at {
+							continue
+						}
+						seen[string(w.K)] = true
+					}
+					keep = append(keep, w)
+				}
+				blocks[i] = keep
+			}
+			for k := range seen {
+				blocks[at] = append(blocks[at], msdrive.Write{Store: drained, Del: true, K: []byte(k)})
+			}
+		}
 		spec := msdrive.Spec{Persistent: ps}
 		t.Line("hist", false, "hist %d %s", h, strings.Join(ps, ","))
 		func() {
@@ -91,10 +126,14 @@ func main() {
 					evs := cp.Stop()
 					rollbacks++
 					if rerr != nil {
-						t.Line("rollback", true, "rollback %d => ERR %s", target, msdrive.ErrStr(rerr))
-						return
+						// the writes that reached the DB before the failure are reported too; the reload below still runs
+						t.Line("rollback", true, "rollback %d => ERR %s %s", target, msdrive.ErrStr(rerr), msdrive.RenderEvents(evs))
+						if target >= latest {
+							return
+						}
+					} else {
+						t.Line("rollback", true, "rollback %d => OK %s", target, msdrive.RenderEvents(evs))
 					}
-					t.Line("rollback", true, "rollback %d => OK %s", target, msdrive.RenderEvents(evs))
 					ms2, err := msdrive.Open(cp, spec, int64(1+r.Intn(30)))
 					if err != nil {
 						t.Line("reopen", true, "reopen latest => ERR %s", msdrive.ErrStr(err))
